@@ -95,7 +95,7 @@ pub fn generate(rng: &mut Rng, _tier: &str) -> Scenario {
     sc.val = Some(val);
     // H1–H4: a random subset per run
     if rng.chance(1, 2) {
-        sc.whmask = (rng.next() & 0x3f) as u32;
+        sc.whmask = (rng.next() & 0x7f) as u32;
         sc.whseed = rng.next();
     }
     // F-SER in a fraction of the runs
